@@ -20,6 +20,8 @@ impl MeanAbsDev {
 //@sig pub fn peek(&self) -> (r: ValueType)
 	requires self.0.inv()
 	ensures r@ == MeanAbsDev::def(self.0.window.view()),
+		// C12: a dispersion measure is never negative
+		r@ >= 0real,
 //@src self.0.get_window().as_slice().iter() ==> SliceIt::new(self.0.get_window().as_slice())
 //@hint chain 0
 		invariant_except_break
@@ -44,6 +46,8 @@ impl MeanAbsDev {
 		let a = abs_dev_sum(self.0.window.view(), mean@);
 		let d = self.0.divider@;
 		assert(a * d == a / n) by(nonlinear_arith) requires d * n == 1real, n >= 1real;
+		lemma_abs_dev_nonneg(self.0.window.view(), mean@);
+		assert(a / n >= 0real) by(nonlinear_arith) requires a >= 0real, n >= 1real;
 	}
 //@end
 }
@@ -66,6 +70,8 @@ impl Method for MeanAbsDev {
 //@extract src/methods/mean_abs_dev.rs impl[Method for MeanAbsDev]::new
 //@end
 //@extract src/methods/mean_abs_dev.rs impl[Method for MeanAbsDev]::next
+	// C12: never negative
+	ensures r@ >= 0real,
 //@end
 }
 
